@@ -58,6 +58,10 @@ class Plan:
     faults: list[str]  # enabled fault kinds
     max_crashes: int = 2
     note: str = ""
+    # scripted crash (fault enumeration over crash points): {"thread": t, "index": i, "fraction": f} -- the
+    # operation at position i of thread t is abandoned at the floor(f * n)-th source line of the package it
+    # executes, n being the number of lines the same thread executed for the same operation just before
+    crash_at: dict | None = None
 
     def to_json(self):
         return dict(self.__dict__)
@@ -98,6 +102,36 @@ def make_plan(seed: int, catalogue_keys: list[str], groups: dict[str, list[str]]
     )
 
 
+def make_crash_probe_plan(seed: int, catalogue_keys: list[str], groups: dict[str, list[str]], meta: dict, target: str | None = None, at_line: str | None = None) -> Plan:
+    """Crash-point probe: run an operation once (measuring its length), run it again and abandon it at a
+    seeded fraction of its package lines, retry it, then use its neighbours (same configuration group: twins,
+    other program forms) and itself again. Everything after the crash must match the isolated reference."""
+    rng = random.Random(f"crash-probe-{seed}")
+    target = target or rng.choice(catalogue_keys)
+    g = meta[target]["group"]
+    neighbours = [k for k in groups[g] if k != target]
+    probes = rng.sample(neighbours, k=min(len(neighbours), rng.randint(1, 4)))
+    probes += [rng.choice(catalogue_keys) for _ in range(rng.randint(0, 2))]
+    rng.shuffle(probes)
+    first = rng.random() < 0.5 and at_line is not None  # crash on the very first execution (cold state) or on the second
+    main = ([target] if first else [target, target]) + probes + [target]
+    threads = [main]
+    if rng.random() < 0.4:  # a bystander whose operations interleave with the abandoned one
+        threads.append([rng.choice(neighbours or catalogue_keys) for _ in range(rng.randint(1, 3))])
+    ambient = [f for f in ("gc", "churn", "clear_caches", "x64_flip") if rng.random() < 0.3]
+    return Plan(
+        seed=seed,
+        threads=threads,
+        p_line=rng.choice((0.0, 0.0, 0.002, 0.01)) if len(threads) > 1 else 0.0,
+        p_fault=0.2 if ambient else 0.0,
+        p_crash=0.0,
+        faults=ambient + ["crash"],
+        max_crashes=1,
+        note="crash-probe",
+        crash_at={"thread": 0, "index": 0 if first else 1, "fraction": rng.random(), "at_line": at_line},
+    )
+
+
 # --------------------------------------------------------------------------------------
 
 
@@ -133,6 +167,9 @@ class _Caller:
     atomic: bool = False
     error: str | None = None
     rng: random.Random | None = None
+    lines_in_op: int = 0
+    crash_line: int = -1
+    crash_at_line: str | None = None
 
 
 TOOL_ID = 3  # sys.monitoring tool slot (0-5; 3 is unassigned by convention)
@@ -158,6 +195,7 @@ class Simulator:
         self.by_ident: dict[int, _Caller] = {}
         self.results: list[tuple] = []  # (thread, index, key, status, digest, x64 at start, leaves or None)
         self.pool = Pool(catalogue.pool_builders)
+        self.intended_x64 = False
         self.keep_outputs = False  # True: keep the flattened outputs so a caller can compare with tolerance
         self.all_done = threading.Event()
         self.crashes_left = plan.max_crashes if "crash" in plan.faults else 0
@@ -171,9 +209,13 @@ class Simulator:
             "ops_crashed": 0,
             "ops_raised": 0,
             "retries": 0,
+            "session_leaks": 0,
+            "lock_waits": 0,
         }
         self.wall_cap = wall_cap
         self._monitoring = False
+        self._line_firsts: dict = {}
+        self.focus_files: set = set()
 
     # ------------------------------------------------------------------ event log
     def _log(self, *ev):
@@ -235,7 +277,8 @@ class Simulator:
                 return
             import jax
 
-            new = not bool(jax.config.jax_enable_x64)
+            new = not self.intended_x64
+            self.intended_x64 = new
             with self.seams.harness():
                 jax.config.update("jax_enable_x64", new)
             self._log("fault", kind, new)
@@ -256,24 +299,69 @@ class Simulator:
             self.stats["line_switches"] += 1
         self._handover(cur, nxt)
 
+    def _lock_wait(self, kind: str) -> bool:
+        """Called by a cooperative lock of the package that is held by a parked caller: run somebody else."""
+        c = self.by_ident.get(threading.get_ident())
+        if c is None or c.done or c.rng is None:
+            return False
+        others = [o for o in self._runnable() if o is not c]
+        if not others:
+            return False
+        nxt = c.rng.choice(others)
+        self.stats["lock_waits"] += 1
+        self._log("yield", kind, c.idx, "", nxt.idx)
+        self._handover(c, nxt)
+        return True
+
     # ------------------------------------------------------------------ LINE events inside the package
     def _on_line(self, code: types.CodeType, line: int):
         c = self.by_ident.get(threading.get_ident())
         if c is None or not c.in_op or c.atomic:
             return
         self.stats["line_events"] += 1
+        c.lines_in_op += 1
+        if c.crash_at_line is not None and c.crash_at_line == f"{code.co_filename[len(self.root):]}:{line}" and self._natural_line_start(code, line):
+            c.crash_line = c.lines_in_op  # fall through to the scripted crash below
+            c.crash_at_line = None
+        if c.lines_in_op >= c.crash_line > 0 and self._natural_line_start(code, line):
+            c.crash_line = -1
+            self.stats["faults"]["crash"] += 1
+            self._log("fault", "crash-scripted", c.idx, code.co_filename[len(self.root):], line, c.lines_in_op)
+            raise InjectedCrash(f"{code.co_filename}:{line}")
         r = c.rng.random()
-        if self.crashes_left and r < self.plan.p_crash:
+        if self.crashes_left and r < self.plan.p_crash and self._natural_line_start(code, line):
             self.crashes_left -= 1
             self.stats["faults"]["crash"] += 1
             self._log("fault", "crash", c.idx, code.co_filename[len(self.root):], line)
             raise InjectedCrash(f"{code.co_filename}:{line}")
-        if r < self.plan.p_crash + self.plan.p_line:
+        p_line = self.plan.p_line
+        if self.focus_files and len(self.callers) > 1 and code.co_filename[len(self.root):] in self.focus_files:
+            p_line = max(p_line, 0.08)  # change-aware: pre-empt more often inside files with uncommitted changes
+        if r < self.plan.p_crash + p_line:
             self.yield_point(c, "line", f"{code.co_filename[len(self.root):]}:{line}")
+
+    def _natural_line_start(self, code: types.CodeType, line: int) -> bool:
+        """True when the LINE event sits on the first instruction of its source line. A crash is injected
+        only there. The compiler attributes the clean-up of a `with` block (the call of `__exit__` on the
+        normal path) and loop back-edges to the line of the `with` / `for` statement, *outside* any exception
+        handler; CPython itself never delivers an asynchronous exception between the end of a `with` body and
+        its `__exit__` call, so raising there would manufacture leaked locks that no real fault can cause."""
+        firsts = self._line_firsts.get(code)
+        if firsts is None:
+            firsts = {}
+            for start, _end, ln in code.co_lines():
+                if ln is not None and (ln not in firsts or start < firsts[ln]):
+                    firsts[ln] = start
+            self._line_firsts[code] = firsts
+        try:
+            lasti = sys._getframe(2).f_lasti
+        except ValueError:
+            return True
+        return lasti == firsts.get(line, lasti)
 
     def _start_monitoring(self):
         mon = sys.monitoring
-        if self.plan.p_line <= 0 and self.plan.p_crash <= 0:
+        if self.plan.p_line <= 0 and self.plan.p_crash <= 0 and not self.plan.crash_at and not (self.focus_files and len(self.callers) > 1):
             return
         mon.use_tool_id(TOOL_ID, "premise-audit")
         mon.register_callback(TOOL_ID, mon.events.LINE, self._on_line)
@@ -298,6 +386,7 @@ class Simulator:
         self.by_ident[threading.get_ident()] = c
         try:
             seen: dict = {}
+            measured: dict = {}
             for i, key in enumerate(c.ops):
                 op = self.cat.ops[key]
                 occ = seen[key] = seen.get(key, -1) + 1
@@ -308,7 +397,18 @@ class Simulator:
                     self._log("op-start", c.idx, i, key, attempt)
                     import jax
 
-                    x64 = bool(jax.config.jax_enable_x64)
+                    # the session precision the *simulator* put in force; the library must not change it
+                    x64 = self.intended_x64
+                    ca = self.plan.crash_at
+                    c.crash_line = -1
+                    c.crash_at_line = None
+                    if ca and ca["thread"] == c.idx and ca["index"] == i and attempt == 0:
+                        if ca.get("at_line"):
+                            c.crash_at_line = ca["at_line"]  # abandon at the first arrival at this source line
+                        else:
+                            n_ref = measured.get(key, 400)
+                            c.crash_line = max(1, int(ca["fraction"] * n_ref))
+                    c.lines_in_op = 0
                     c.in_op = True
                     c.atomic = op.atomic
                     status, dig, leaves = "ok", "", None
@@ -327,9 +427,18 @@ class Simulator:
                         c.in_op = False
                         c.atomic = False
                     self.stats[{"ok": "ops_completed", "crashed": "ops_crashed", "raised": "ops_raised"}[status]] += 1
+                    measured[key] = c.lines_in_op
                     self._log("op-end", c.idx, i, key, status)
                     self.results.append((c.idx, i, key, status, dig, x64, leaves))
-                    if status == "crashed" and attempt == 0 and c.rng.random() < 0.7:
+                    if bool(jax.config.jax_enable_x64) != self.intended_x64 and not any(o.in_op for o in self.callers):
+                        # nobody is inside the library and the process-wide precision flag is not what the
+                        # simulator set: library code changed the session and did not put it back
+                        self._log("session-leak", c.idx, i, key, bool(jax.config.jax_enable_x64))
+                        self.results.append((c.idx, i, key, "session-leak", f"jax_enable_x64={bool(jax.config.jax_enable_x64)}", self.intended_x64, None))
+                        self.stats["session_leaks"] += 1
+                        with self.seams.harness():
+                            jax.config.update("jax_enable_x64", self.intended_x64)
+                    if status == "crashed" and attempt == 0 and (c.rng.random() < 0.7 or self.plan.crash_at):
                         attempt += 1  # the caller retries the abandoned operation, as a user would
                         self.stats["retries"] += 1
                         continue
@@ -350,6 +459,10 @@ class Simulator:
         import jax
 
         x64_at_start = bool(jax.config.jax_enable_x64)
+        self.intended_x64 = x64_at_start
+        import colock
+
+        colock.set_waiter(self._lock_wait)
         self._start_monitoring()
         try:
             first = random.Random(f"{self.seed}|start").choice(self.callers)
@@ -358,10 +471,16 @@ class Simulator:
             t0 = REAL_MONOTONIC()
             while not self.all_done.wait(timeout=1.0):
                 if REAL_MONOTONIC() - t0 > self.wall_cap:
-                    faulthandler.dump_traceback(file=sys.stderr, all_threads=True)
-                    raise TimeoutError(f"simulated run {self.plan.seed} exceeded {self.wall_cap}s wall clock")
+                    import tempfile
+
+                    with tempfile.TemporaryFile("w+") as tf:
+                        faulthandler.dump_traceback(file=tf, all_threads=True)
+                        tf.seek(0)
+                        dump = tf.read()
+                    raise TimeoutError(f"simulated run {self.plan.seed} exceeded {self.wall_cap}s wall clock; threads:\n{dump[-6000:]}")
         finally:
             self._stop_monitoring()
+            colock.set_waiter(None)
             if bool(jax.config.jax_enable_x64) != x64_at_start:
                 with self.seams.harness():
                     jax.config.update("jax_enable_x64", x64_at_start)
